@@ -13,6 +13,7 @@ import (
 )
 
 type Witness struct {
+	Sched   []uint64
 	Reached []string
 	Vector  []uint64
 	Observe map[string]uint64
@@ -207,8 +208,10 @@ func (e *Engine) Explore(entry *ssa.Function, cfg Config) *HarnessResult {
 }
 
 // RunConcrete executes the harness once with a fixed input vector and no solver.
-func (e *Engine) RunConcrete(entry *ssa.Function, cfg Config, vector []uint64) (outcome string, msg string, reached []string, observed map[string]uint64) {
+func (e *Engine) RunConcrete(entry *ssa.Function, cfg Config, vector []uint64, sched ...uint64) (outcome string, msg string, reached []string, observed map[string]uint64) {
+	e.concSched = sched
 	out := e.runPath(entry, &cfg, nil, nil, vector, nil)
+	e.concSched = nil
 	observed = map[string]uint64{}
 	for _, ev := range out.m.events {
 		switch ev.Kind {
@@ -240,6 +243,10 @@ func (e *Engine) runPath(entry *ssa.Function, cfg *Config, sol *smt.Solver, pref
 	if vector == nil && sol == nil {
 		m.vector = []uint64{}
 	}
+	if sol == nil {
+		m.schedVector = e.concSched
+	}
+	defer m.killThreads()
 	if sol != nil {
 		sol.Reset()
 		q0, t0 := sol.Queries, sol.TotalTime
@@ -295,7 +302,7 @@ func (e *Engine) runPath(entry *ssa.Function, cfg *Config, sol *smt.Solver, pref
 						}
 					}
 				}
-				out.witness = &Witness{Reached: ids, Vector: vec, Observe: obs, Outcome: "ok"}
+				out.witness = &Witness{Reached: ids, Vector: vec, Observe: obs, Outcome: "ok", Sched: append([]uint64(nil), m.schedTrace...)}
 			}
 		}
 	}
